@@ -312,14 +312,62 @@ theorem at_bound_contains' (E : Env α) (hc : CastExact E) (hf : FloorSpec E)
   · have := latOf_anti E hlat hyl'
     rwa [h2 _ hlatlo hlathi] at this
 
+/-- At the antimeridian itself the fraction is `2^z`, `uint32` gives `2^z` and the last-column clamp
+    of `At` brings the column back to `2^z − 1`. -/
+theorem at_x_antimeridian (E : Env α) (hc : CastExact E) (hf : FloorSpec E) (ll : Pt α) {z : Nat}
+    (hz : z ≤ 31) (h180 : ll.x = 180) : (at_ E ll z).x = 2 ^ z - 1 := by
+  have hpos : 0 < 2 ^ z := Nat.pos_of_ne_zero (by positivity)
+  have hfx : (fraction E ll z).x = ((2 ^ z : Nat) : α) := by
+    rw [fraction_x E hc ll hz, h180]; push_cast; norm_num
+  have hfl : E.floorU32 (fraction E ll z).x = 2 ^ z := by
+    rw [hfx]; apply hf
+    · exact le_refl _
+    · linarith
+  simp only [at_, hfl, shl32_one hz]
+  rw [if_pos ⟨by omega, le_refl _⟩]
+
+/-- … hence also in the closed sense of `orb.Bound.Contains` — and in that sense for the whole closed
+    range of longitudes `[−180, 180]`: at `lon = 180` the point lies ON the east edge of the last
+    column (the clamp branch of `At`), which the half-open cell excludes and the closed bound includes. -/
 theorem at_bound_contains_closed' (E : Env α) (hc : CastExact E) (hf : FloorSpec E)
     (hlat : LatOfStrictAnti E) (hanti : MercYAntitone E) (h1 : MercYLatOf E) (h2 : LatOfMercY E)
     (hin : ClampInside E)
-    (ll : Pt α) (z : Nat) (hz : z ≤ 31) (hlo : -180 ≤ ll.x) (hhi : ll.x < 180)
+    (ll : Pt α) (z : Nat) (hz : z ≤ 31) (hlo : -180 ≤ ll.x) (hhi : ll.x ≤ 180)
     (hlatlo : -E.latMax ≤ ll.y) (hlathi : ll.y ≤ E.latMax) :
     InBound (bound E (at_ E ll z) 0) ll := by
-  obtain ⟨a, b, c, d⟩ := at_bound_contains' E hc hf hlat hanti h1 h2 hin ll z hz hlo hhi hlatlo hlathi
-  exact ⟨a, le_of_lt b, le_of_lt c, d⟩
+  rcases lt_or_eq_of_le hhi with hlt | h180
+  · obtain ⟨a, b, c, d⟩ := at_bound_contains' E hc hf hlat hanti h1 h2 hin ll z hz hlo hlt hlatlo hlathi
+    exact ⟨a, le_of_lt b, le_of_lt c, d⟩
+  · -- the antimeridian: the same row as the point (−180, lat), the last column
+    have hp := two_pow_pos (α := α) z
+    have hpos : 0 < 2 ^ z := Nat.pos_of_ne_zero (by positivity)
+    have hr := mercY_range E hanti h1 h2 hin _ hlatlo hlathi
+    obtain ⟨hyv, hyl, hyu⟩ := at_y_spec E hc hf ll hz hlatlo hlathi hr
+    have hx := at_x_antimeridian E hc hf ll hz h180
+    have hb := bound_valid E hc (at_ E ll z) (by rw [at_z]; exact hz) (by rw [at_z]; exact hyv)
+    rw [at_z, hx] at hb
+    have hcast : (((2 ^ z - 1 : Nat)) : α) = (2 : α) ^ z - 1 := by
+      rw [Nat.cast_sub hpos]; push_cast; rfl
+    rw [hcast] at hb
+    rw [hb]
+    unfold InBound
+    simp only
+    have hyl' : ((at_ E ll z).y : α) / (2 : α) ^ z ≤ E.mercY ll.y := by
+      rw [div_le_iff₀ hp]; exact hyl
+    have hyu' : E.mercY ll.y < (((at_ E ll z).y : α) + 1) / (2 : α) ^ z := by
+      rw [lt_div_iff₀ hp]; exact hyu
+    have e1 : ((2 : α) ^ z - 1 + 1) / (2 : α) ^ z = 1 := by
+      rw [sub_add_cancel]; exact div_self (ne_of_gt hp)
+    have e0 : ((2 : α) ^ z - 1) / (2 : α) ^ z ≤ 1 := by
+      rw [div_le_one hp]; linarith
+    refine ⟨?_, ?_, ?_, ?_⟩
+    · rw [h180]; linarith
+    · rw [h180, e1]; norm_num
+    · have := hlat _ _ hyu'
+      rw [h2 _ hlatlo hlathi] at this
+      exact le_of_lt this
+    · have := latOf_anti E hlat hyl'
+      rwa [h2 _ hlatlo hlathi] at this
 
 /-! ### `Center` -/
 
@@ -394,34 +442,81 @@ theorem center_maps_back' (E : Env α) (hc : CastExact E) (hf : FloorSpec E)
 
 /-- The east edge of a tile and the west edge of its right neighbour, the south edge of a tile and
     the north edge of the tile below: each pair is `ToGeo` of the SAME integer corner.  Stated for
-    every environment whose `float64(n)` is additive on `n + 1` and for which `± 0.0` is the
-    identity — true of float64 (integers below 2^53 are exact) and of every field. -/
+    every carrier with POINTWISE hypotheses — only the two conversions `float64(x+1)`, `float64(y+1)` and
+    the four sums/differences with `0.0` that the two `Bound` calls actually perform.  (A global
+    `∀ n, ofNat (n+1) = ofNat n + 1` is false in float64 from `n = 2^53 + 1` on, and a global
+    `∀ a, a + 0 = a` is false bitwise at `a = −0.0`; pointwise, at tile coordinates `< 2^32` and at
+    `float64(x) + 1 ≥ 1`, they are true of float64 and of every field.) -/
 theorem neighbours_share_edges_gen {β : Type} [Add β] [Sub β] [Mul β] [Div β] [Neg β] [LT β] [DecidableLT β]
     [OfNat β 0] [OfNat β 1] [OfNat β 2] [OfNat β 90] [OfNat β 180] [OfNat β 360]
     (E : Env β) (t : Tile)
-    (hsucc : ∀ n : Nat, E.ofNat (n + 1) = E.ofNat n + 1)
-    (hadd0 : ∀ a : β, a + 0 = a) (hsub0 : ∀ a : β, a - 0 = a)
+    (hsuccx : E.ofNat (t.x + 1) = E.ofNat t.x + 1)
+    (hsuccy : E.ofNat (t.y + 1) = E.ofNat t.y + 1)
+    (hadd0x : E.ofNat t.x + 1 + 0 = E.ofNat t.x + 1)
+    (hadd0y : E.ofNat t.y + 1 + 0 = E.ofNat t.y + 1)
+    (hsub0x : E.ofNat t.x + 1 - 0 = E.ofNat t.x + 1)
+    (hsub0y : E.ofNat t.y + 1 - 0 = E.ofNat t.y + 1)
     (hnoclampN : ¬ (maxTiles32 E t.z < E.ofNat t.y + 1))
     (hnoclamp0 : ¬ (E.ofNat t.y + 1 < 0)) :
     (bound E t 0).max.x = (bound E ⟨t.x + 1, t.y, t.z⟩ 0).min.x ∧
     (bound E t 0).min.y = (bound E ⟨t.x, t.y + 1, t.z⟩ 0).max.y := by
   constructor
-  · simp only [bound, toGeo, hsucc, hadd0, hsub0]
-  · simp only [bound, toGeo, hsucc, hadd0, hsub0, if_neg hnoclampN, if_neg hnoclamp0]
+  · simp only [bound, toGeo, hsuccx, hadd0x, hsub0x]
+  · simp only [bound, toGeo, hsuccy, hadd0y, hsub0y, if_neg hnoclampN, if_neg hnoclamp0]
 
 theorem neighbours_share_edges' (E : Env α) (hc : CastExact E) (t : Tile) (hz : t.z ≤ 31)
     (hy : t.y + 1 ≤ 2 ^ t.z) :
     (bound E t 0).max.x = (bound E ⟨t.x + 1, t.y, t.z⟩ 0).min.x ∧
     (bound E t 0).min.y = (bound E ⟨t.x, t.y + 1, t.z⟩ 0).max.y := by
   apply neighbours_share_edges_gen E t
-  · intro n; rw [hc, hc]; push_cast; rfl
-  · intro a; exact add_zero a
-  · intro a; exact sub_zero a
+  · rw [hc, hc]; push_cast; rfl
+  · rw [hc, hc]; push_cast; rfl
+  · exact add_zero _
+  · exact add_zero _
+  · exact sub_zero _
+  · exact sub_zero _
   · rw [maxTiles32_eq E hc hz, hc]
     exact not_lt.mpr (natCast_succ_le_two_pow hy)
   · rw [hc]
     have : (0 : α) ≤ (t.y : α) := Nat.cast_nonneg _
     exact not_lt.mpr (by linarith)
+
+/-! A carrier that is NOT a field and whose conversion saturates (as `float64` loses `+ 1` above `2^53`):
+    `Int` with `ofNat n = min n 2^53`.  The GLOBAL successor law fails in it, the pointwise hypotheses of
+    `neighbours_share_edges_gen` hold for every tile with coordinates below `2^53` — so the pointwise
+    statement applies where the former global one was vacuous. -/
+
+/-- saturating conversion on `Int` -/
+def satEnv : Env Int where
+  mercY := fun a => a
+  latOf := fun a => a
+  floorU32 := fun a => a.toNat
+  ofNat := fun n => ((min n (2 ^ 53) : Nat) : Int)
+  latMax := 85
+
+theorem satEnv_not_global_succ : ¬ ∀ n : Nat, satEnv.ofNat (n + 1) = satEnv.ofNat n + 1 := by
+  intro h
+  have := h (2 ^ 53)
+  simp only [satEnv] at this
+  omega
+
+theorem satEnv_pointwise (t : Tile) (hx : t.x < 2 ^ 53) (hy : t.y + 1 ≤ 2 ^ t.z) (hz : t.z ≤ 31) :
+    (bound satEnv t 0).max.x = (bound satEnv ⟨t.x + 1, t.y, t.z⟩ 0).min.x ∧
+    (bound satEnv t 0).min.y = (bound satEnv ⟨t.x, t.y + 1, t.z⟩ 0).max.y := by
+  have h31 : 2 ^ t.z ≤ 2 ^ 31 := Nat.pow_le_pow_right (by decide) hz
+  have hm : maxTiles32 satEnv t.z = ((2 ^ t.z : Nat) : Int) := by
+    simp only [maxTiles32, satEnv, shl32_one hz]
+    congr 1
+    omega
+  apply neighbours_share_edges_gen satEnv t
+  · simp only [satEnv]; omega
+  · simp only [satEnv]; omega
+  · exact Int.add_zero _
+  · exact Int.add_zero _
+  · exact Int.sub_zero _
+  · exact Int.sub_zero _
+  · rw [hm]; simp only [satEnv]; omega
+  · simp only [satEnv]; omega
 
 theorem children_eq (t : Tile) (hz : t.z ≤ 30) (hx : t.x < 2 ^ t.z) (hy : t.y < 2 ^ t.z) :
     children t =
